@@ -31,8 +31,9 @@
 (***************************************************************************)
 EXTENDS Integers, Sequences, FiniteSets, TLC
 
-CONSTANTS Variant        \* Level B wrap of the heading change: "euclid" = mathematical modulus (what the property needs),
-                         \* "pinned" = Rust's `%` (remainder with the sign of the dividend), as in the current tree
+CONSTANTS Variant        \* Level B wrap of the heading change: "euclid" = mathematical modulus (the current tree since b8a91e0:
+                         \* ((x % REV) + REV) % REV); "pinned" = a single Rust `%` (remainder with the sign of the dividend),
+                         \* the tree before the repair of F-C06-1 - kept as a fault model
 
 INF == 1073741824        \* 2^30 = +infinity (avh::common::INF)
 
